@@ -21,6 +21,7 @@ import SSEPyVerif.Proofs.Schemes.ANSS16
 import SSEPyVerif.Proofs.Schemes.CT14
 import SSEPyVerif.Proofs.Schemes.SSE1
 import SSEPyVerif.Proofs.Schemes.Pi2Lev
+import SSEPyVerif.Proofs.Schemes.DP17
 namespace SSEPy.C01
 open SSEPy.Sch SSEPy.Sch.Chain
 
@@ -240,5 +241,32 @@ theorem SSE2.search_stored_valid (cfg : SSE2Cfg) (lv : Leaves) (hl : LeafLaws lv
     have := same_list w ids ids' hm h1
     subst this
     omega
+
+/-- DP17 (schemes/DP17/Pi), the half of C01 that is a consequence of the leaf laws: NO IDENTIFIER IS MISSED.  Whatever the
+    number of levels, the level adjacent to the list length, the random choice of buckets, the shuffles and the padding:
+    when `Setup` has returned an index and the search for a stored keyword returns, the result contains every identifier
+    of that keyword's list.  (The binary search `_find_adjacent_i` always returns a level that holds the list in at most
+    `L` chunks, so the `L` probes of `Search` reach every chunk; every chunk's hash-table entry decodes to the level and
+    bucket the chunk was put in; the bucket's array cell is a concatenation of equally long ciphertexts, so cutting it by
+    `param_identifier_cipher_len` gives the ciphertexts back; the entry decrypts under `F_k3(w)` to `id ‖ 0^λ`.)
+    Hypotheses (all evaluated by the driver on every recorded run): leaf laws; identifiers have the configured size;
+    the hash-table keys `H(F_k1(w) ‖ c)` of the chunks are pairwise different and no random filler key equals one of
+    them; every recorded shuffle is a permutation.
+
+    PARTIAL with respect to C01's "exactly": not proved are (a) that the search does not raise and (b) that it returns
+    nothing else.  Both need that trial decryption of a FOREIGN bucket entry (another keyword's, or a random filler) under
+    `F_k3(w)` does not end in `0^λ`, and that a probe beyond the last chunk does not hit a random filler of the hash table —
+    facts about AES / HMAC outputs that hold with overwhelming probability but do not follow from the leaf laws.  The
+    correspondence and the direct oracle compare the whole result on every run. -/
+theorem DP17.search_stored_partial (raw : RawCfg) (cfg : DP17Cfg) (hcfg : DP17.cfgBuild raw = .ok cfg) (lv : Leaves)
+    (hl : LeafLaws lv) (k1 k2 k3 : Bytes) (db : DB) (t t' : Tape) (edb : DP17EDB)
+    (hs : DP17.setup cfg lv [k1, k2, k3] db t = .ok (edb, t')) (hkeys : (db.map (·.1)).Nodup)
+    (hidl : ∀ p ∈ db, ∀ id ∈ p.2, (id.length : Int) = cfg.idSize)
+    (hinj : ∀ levels, DP17.levelsOf cfg db.total = .ok levels → DP17.KeyInj cfg lv k1 levels db) (hperm : DP17.PermsGood t)
+    (hfresh : ∀ levels, DP17.levelsOf cfg db.total = .ok levels → ∀ b, Draw.bytes b ∈ t → ∀ w ids c, (w, ids) ∈ db → 1 ≤ c →
+      c ≤ DP17.nChunks cfg levels ids → DP17.htKey cfg lv k1 w c ≠ .ok b)
+    (w : Bytes) (ids : List Bytes) (hm : (w, ids) ∈ db) (tk : List Bytes) (htk : DP17.token cfg lv [k1, k2, k3] w = .ok tk)
+    (res : List Bytes) (hres : DP17.search cfg lv edb tk = .ok res) : ∀ id ∈ ids, id ∈ res :=
+  DP17.search_present cfg lv raw hcfg hl k1 k2 k3 db t t' edb hs hkeys hidl hinj hperm hfresh w ids hm tk htk res hres
 
 end SSEPy.C01
